@@ -70,6 +70,7 @@ type c11sChild struct {
 	errBuf *c11sSyncBuf
 	done   chan struct{}
 	werr   error
+	ctl    chan string // answers of the child's side channel (STATS / SITES, see o_session_child.go)
 }
 
 type c11sSyncBuf struct {
@@ -92,12 +93,12 @@ func (s *c11sSyncBuf) String() string {
 	return s.b.String()
 }
 
-func c11sStartChild(self string, asLimitMB int) (*c11sChild, error) {
+func c11sStartChild(self string, asLimitMB int, extraArgs ...string) (*c11sChild, error) {
 	dir, err := os.MkdirTemp("", "vh-c11s-")
 	if err != nil {
 		return nil, err
 	}
-	cmd := exec.Command(self, "oracle", "c11child", "-dir", dir, "-aslimit", strconv.Itoa(asLimitMB))
+	cmd := exec.Command(self, append([]string{"oracle", "c11child", "-dir", dir, "-aslimit", strconv.Itoa(asLimitMB)}, extraArgs...)...)
 	// crash: on SIGQUIT / a fatal error also the goroutines running on other threads are dumped
 	cmd.Env = append(os.Environ(), "GOTRACEBACK=crash")
 	stdin, err := cmd.StdinPipe()
@@ -108,7 +109,7 @@ func c11sStartChild(self string, asLimitMB int) (*c11sChild, error) {
 	if err != nil {
 		return nil, err
 	}
-	c := &c11sChild{cmd: cmd, stdin: stdin, dir: dir, errBuf: &c11sSyncBuf{}, done: make(chan struct{})}
+	c := &c11sChild{cmd: cmd, stdin: stdin, dir: dir, errBuf: &c11sSyncBuf{}, done: make(chan struct{}), ctl: make(chan string, 16)}
 	cmd.Stderr = c.errBuf
 	if err := cmd.Start(); err != nil {
 		_ = os.RemoveAll(dir)
@@ -120,9 +121,21 @@ func c11sStartChild(self string, asLimitMB int) (*c11sChild, error) {
 	}()
 	lineCh := make(chan string, 1)
 	go func() {
-		l, _ := bufio.NewReader(stdout).ReadString('\n')
+		r := bufio.NewReaderSize(stdout, 1<<16)
+		l, _ := r.ReadString('\n')
 		lineCh <- l
-		_, _ = io.Copy(io.Discard, stdout)
+		for {
+			l, err := r.ReadString('\n')
+			if l != "" {
+				select {
+				case c.ctl <- strings.TrimSpace(l):
+				default:
+				}
+			}
+			if err != nil {
+				return
+			}
+		}
 	}()
 	select {
 	case l := <-lineCh:
